@@ -1,8 +1,9 @@
-import AFV.Driver.Proto
+import AFV.Driver.SetsCommon
 namespace AFV.Driver.C29
 open Lean AFV.Proto
 
-/-- Handler for property C29 requests (stub: not implemented yet). -/
-def handle (_req : Json) : Json := err "unimplemented"
+/-- C29 requests: see `AFV.Driver.SetsCommon` (op "case"; the reply carries, per Einsum, the
+effective rename list and the resolved table for both the model and the specified precedence). -/
+def handle (req : Json) : Json := SetsCommon.handle req
 
 end AFV.Driver.C29
